@@ -188,6 +188,16 @@ impl Gen {
         // a defm without a name: the uses inside it resolve like anywhere else
         let anon_arg = self.probe("u");
         out.push(Item::Defm { name: None, parents: vec![CRef::with("MM", vec![anon_arg])] });
+        // a let list consumed out of order: the first record has the field of the second binding only, the
+        // second record the field of the first (nested the same way)
+        let crossing = |tag: &str| vec![
+            Item::Def { doc: vec![], blank: false, name: Some(format!("lf{tag}")), parents: vec![CRef::with("Base", vec![int(1)])], body: None },
+            Item::Def { doc: vec![], blank: false, name: Some(format!("lh{tag}")), parents: vec![CRef::with("Base2", vec![int(1)])], body: None },
+        ];
+        out.push(Item::Let { binds: vec![("h2".into(), int(1)), ("f".into(), int(2))], body: crossing(&format!("{tag}")), braces: true });
+        let mut nested = vec![Item::Let { binds: vec![("f".into(), int(2))], body: crossing(&format!("{tag}n"))[..1].to_vec(), braces: false }];
+        nested.extend(crossing(&format!("{tag}n"))[1..].to_vec());
+        out.push(Item::Let { binds: vec![("h2".into(), int(1))], body: nested, braces: true });
     }
 
     /// two statements whose `!foreach` variables end with the operator: `bv` is unbound afterwards and
@@ -612,6 +622,25 @@ pub fn declaration_variants() -> Vec<Vec<Item>> {
         Item::Class { doc: vec![], blank: false, name: "C".into(), targs: vec![], parents: vec![], body: Some(vec![field(Ty::List(Box::new(Ty::Int)), "l", Some(fe()), &[], false), field(Ty::Int, "z", Some(int(1)), &[], false)]) },
         Item::Multiclass { doc: vec![], name: "MAfter".into(), targs: vec![TArg { ty: Ty::Int, name: "mt0".into(), default: None }], parents: vec![], body: vec![Item::Def { doc: vec![], blank: false, name: Some("_x".into()), parents: vec![CRef::with("P", vec![id("mt0")])], body: None }] },
         Item::Def { doc: vec![], blank: false, name: Some("after".into()), parents: vec![CRef::with("C", vec![])], body: None },
+    ]);
+    // a field declared again, under the name of an inherited field, is a field declared in this body
+    out.push(vec![
+        base.clone(),
+        Item::Class {
+            doc: vec![],
+            blank: false,
+            name: "C".into(),
+            targs: vec![],
+            parents: vec![CRef::with("P", vec![int(1)])],
+            body: Some(vec![field(Ty::Int, "f", Some(int(2)), &[], false), field(Ty::Int, "own", Some(int(1)), &[], false)]),
+        },
+        Item::Def {
+            doc: vec![],
+            blank: false,
+            name: Some("d".into()),
+            parents: vec![CRef::plain("C")],
+            body: Some(vec![field(Ty::Int, "f", Some(int(3)), &[], false), field(Ty::List(Box::new(Ty::Int)), "g", Some(E::List(vec![int(1)])), &[], false), field(Ty::Int, "own", Some(int(4)), &[], false)]),
+        },
     ]);
     // several parents: an override of a field of each of them is a child
     {
